@@ -71,6 +71,8 @@ type modTarget struct {
 	typ  types.Type
 	sl   *SliceV
 	src  string
+	bound *Term // fieldq: bound variable
+	cond  *Term // fieldq: which objects may change
 }
 
 func (ex *Exec) fresh(prefix string, s Sort) *Term {
@@ -161,6 +163,11 @@ func (ex *Exec) newRef(st *State, what string, typeKey string) *Term {
 		st.assume(Neq(r, f.ref))
 	}
 	st.fresh = append(st.fresh, freshObj{r, typeKey})
+	// non-struct objects (arrays, maps, channels, errors) get a dynamic type tag of their own,
+	// so that quantifiers over struct pointers do not range over them
+	if strings.HasPrefix(typeKey, "[") || strings.HasPrefix(typeKey, "map[") || strings.HasPrefix(typeKey, "chan") || typeKey == "error" {
+		st.assume(Eq(ex.dtype(r), ex.typeTagKey("obj "+typeKey)))
+	}
 	return r
 }
 
@@ -336,6 +343,9 @@ func (ex *Exec) typeInv(t types.Type, v *Val, alloc *Term) *Term {
 			if isRefType(ex.env.resolve(l.Type)) && alloc != nil {
 				cs = append(cs, Or(Eq(tm, IntLit(0)), And(Gt(tm, IntLit(0)), Select(alloc, tm))))
 			}
+			if pt := ex.structPtr(l.Type); pt != nil {
+				cs = append(cs, Or(Eq(tm, IntLit(0)), Eq(ex.dtype(tm), ex.typeTag(pt))))
+			}
 		}
 		if l.Type != nil {
 			if b, ok := ex.env.resolve(l.Type).Underlying().(*types.Basic); ok && b.Kind() == types.String {
@@ -484,6 +494,9 @@ func (ex *Exec) strConst(s string) *Term {
 // ---------- locations ----------
 
 func (ex *Exec) loadLoc(st *State, loc *Loc) *Val {
+	if loc.Dummy {
+		return ex.freshVal(loc.Type, "opaque_field")
+	}
 	switch loc.Kind {
 	case LCell:
 		v, ok := st.cells[loc.Cell]
@@ -499,6 +512,7 @@ func (ex *Exec) loadLoc(st *State, loc *Loc) *Val {
 		return v
 	case LHeap:
 		return ex.buildVal(loc.Type, loc.PathS, func(l Leaf) *Term {
+			ex.closedHeap(loc.Base, l)
 			return Select(ex.fieldArr(st, loc.Base, l.Path, l.Sort), loc.Ref)
 		})
 	case LElem:
@@ -512,6 +526,9 @@ func (ex *Exec) loadLoc(st *State, loc *Loc) *Val {
 }
 
 func (ex *Exec) storeLoc(st *State, loc *Loc, v *Val) {
+	if loc.Dummy {
+		return
+	}
 	switch loc.Kind {
 	case LCell:
 		if len(loc.PathI) == 0 {
@@ -575,4 +592,55 @@ func (ex *Exec) storeGlobal(st *State, loc *Loc, v *Val) {
 	ex.flatten(loc.Type, v, loc.PathS, func(l Leaf, t *Term) {
 		st.heap[ex.globalKey(g)+" "+l.Path] = t
 	})
+}
+
+// closedHeap adds, once per reference-typed field, the typing axiom of the
+// initial heap: reference fields of allocated objects hold nil or allocated
+// (or embedded/negative) references, and objects that are not yet allocated
+// have nil reference fields (allocation zero-initialises).
+func (ex *Exec) closedHeap(base types.Type, l Leaf) {
+	if l.Sort != SRef || l.Type == nil {
+		return
+	}
+	rt := ex.env.resolve(l.Type)
+	isRef := isRefType(rt)
+	if b, ok := rt.Underlying().(*types.Basic); ok && b.Kind() == types.UnsafePointer {
+		isRef = true
+	}
+	if l.Role == "arr" {
+		isRef = false
+	}
+	if !isRef {
+		return
+	}
+	key := ex.fieldKey(base, l.Path)
+	h0 := ex.heap0(key, ArraySort(SRef, SRef))
+	al := ex.heap0("alloc", ArraySort(SRef, SBool))
+	x := Sym("x!ch", SRef)
+	v := Select(h0, x)
+	body := Implies(Select(al, x), Or(Le(v, IntLit(0)), Select(al, v)))
+	if pt := ex.structPtr(l.Type); pt != nil {
+		body = And(body, Or(Eq(v, IntLit(0)), Eq(ex.dtype(v), ex.typeTag(pt))))
+	}
+	ex.addAxiom(Forall([]*Term{x}, body, []*Term{v}))
+}
+
+// structPtr returns the (resolved) type if it is a pointer to a named struct type.
+func (ex *Exec) structPtr(t types.Type) types.Type {
+	if t == nil {
+		return nil
+	}
+	rt := ex.env.resolve(t)
+	p, ok := rt.Underlying().(*types.Pointer)
+	if !ok {
+		return nil
+	}
+	el := ex.env.resolve(p.Elem())
+	if _, ok := el.Underlying().(*types.Struct); !ok || isOpaqueNamed(el) {
+		return nil
+	}
+	if _, ok := types.Unalias(el).(*types.Named); !ok {
+		return nil
+	}
+	return rt
 }
